@@ -130,6 +130,16 @@ pub fn probe_lines(eng: &Engine, viewer: usize, pool_nicks: &[String]) -> Vec<St
         if co.members.contains_key(vn) {
             v.push(format!("MODE {}", ch));
             v.push(format!("TOPIC {}", ch));
+            // the mask lists, wherever they came from (MODE commands or the configuration)
+            if !co.ban.is_empty() {
+                v.push(format!("MODE {} +b", ch));
+            }
+            if !co.except.is_empty() {
+                v.push(format!("MODE {} +e", ch));
+            }
+            if !co.invex.is_empty() {
+                v.push(format!("MODE {} +I", ch));
+            }
         }
     }
     let nicks: Vec<String> = m.users.keys().cloned().collect();
